@@ -16,6 +16,8 @@ pub const TEXTS: &[&str] = &[
     "Ünï 😀 teh tset.\nSecond line an apple",
     "The tset and thw met naïvité, O'Brienx and ŁÓDŹx in an hour.",
     "Again thw, ŁÓDŹx, tset; then naïvité left O'Brienx there there.",
+    "Tset is here, teh thing. TSET too.",
+    "The tset and Tset met thw; naïvité and ŁÓDŹx in an hour.",
 ];
 
 #[derive(Clone, Debug, PartialEq)]
@@ -343,6 +345,7 @@ pub fn ops() -> Vec<Op> {
     vec![
         Op::Open(0, 0),
         Op::Open(1, 1),
+        Op::Open(1, 6),
         Op::Change(0, 1),
         Op::Change(0, 2),
         Op::Change(1, 0),
